@@ -13,8 +13,8 @@ CONTAINER_OPS = [{"op": "logs_now"}, {"op": "address_for_port", "port": 8080}, {
 CCONF = {"entrypoint": "web", "command": ["--serve"], "env": [["PORT", "8080"]], "ports": [8080, 9090], "mounts": []}
 
 
-def bconf(pre=False, expected="success"):
-    return {"builder": "heroku/builder:24", "app_dir": "fixtures/app", "buildpacks": ["heroku/procfile"], "env": [["A", "1"], ["B", "2"]],
+def bconf(pre=False, expected="success", builder="heroku/builder:24"):
+    return {"builder": builder, "app_dir": "fixtures/app", "buildpacks": ["heroku/procfile"], "env": [["A", "1"], ["B", "2"]],
             "preprocessor": {"add": [["added.txt", "new"]], "remove": ["index.txt"]} if pre else None, "expected": expected}
 
 
@@ -42,7 +42,7 @@ def bodies(depth, rebuilds_left):
         for pre in ([], [atoms[0]], [atoms[2]]):
             for inner in bodies(depth - 1, rebuilds_left - 1)[: 6 if depth < 3 else 14]:
                 for prep in (False, True):
-                    out.append(pre + [{"op": "rebuild", "config": bconf(prep), "body": inner}])
+                    out.append(pre + [{"op": "rebuild", "config": bconf(prep, builder="other/builder:22" if prep else "heroku/builder:24"), "body": inner}])
     return out
 
 
@@ -56,7 +56,7 @@ def random_body(r, rebuilds_left):
         else:
             nodes.append({"op": "start_container", "config": CCONF, "body": [copy.deepcopy(r.choice(CONTAINER_OPS)) for _ in range(r.randint(0, 4))]})
     if rebuilds_left > 0 and r.random() < 0.6:
-        nodes.append({"op": "rebuild", "config": bconf(r.random() < 0.5), "body": random_body(r, rebuilds_left - 1)})
+        nodes.append({"op": "rebuild", "config": bconf(r.random() < 0.5, builder=r.choice(["heroku/builder:24", "other/builder:22"])), "body": random_body(r, rebuilds_left - 1)})
     return nodes
 
 
@@ -237,7 +237,7 @@ def run_tree(env, tidx, tree, sh):
         sc = copy.deepcopy(scenario)
         plan = {}
         if fault["kind"] == "command":
-            plan = {"fail_seq": fault["seq"], "exit": 1}
+            plan = {"fail_seq": fault["seq"], "exit": [1, 125, 2, 127, 126, 255][(fault["seq"] + tidx) % 6]}
             if fault.get("output"):
                 plan["fail_output"] = fault["output"]
             if fault.get("signal"):
